@@ -63,6 +63,14 @@ CHECKS.update({
    ref="DESIGN.md s6 C18"),
 })
 
+CHECKS.update({
+ "C19": dict(
+   text="Api.tla is the public API as a typed term algebra over spec/ApiTable.tla (76 entries: parameter kinds, accepted argument forms, result kinds, randomness, the parameters a callable may modify): TLC enumerates every callable x every form combination, the patterns f;f and f;g;f with a shared argument (exhaustive) and simulated data-flow chains, with the frame condition built into the Call action. Every generated program is executed on the real library with bit fingerprints of all arguments before/after every call; ApiTrace.tla accepts a run iff content term -> fingerprint is a function at every step (no argument outside `mut` modified, no hidden state, equal inputs and seed give bit-identical results whatever was called in between), the call agrees with its canonical-form call (rtol 1e-12, row 0 of stacked forms), returned tables carry the documented schema, and nothing raises. The table is compared with introspection of the ten modules; a public callable missing from it is reported as UNCOVERED.",
+   note="Accepted forms follow the docstrings literally. Excluded with reasons: Turntable.generate_imu (fails at baseline in this image), the abstract Measurement base class. Base objects are one seeded scenario (two content-distinct objects per kind).",
+   technique="TLA+ model of the API as a term algebra (Api.tla / ApiTable.tla) with TLC-generated call programs + trace validation of their real executions (ApiTrace.tla)",
+   ref="DESIGN.md s6 C19, Appendix B"),
+})
+
 ORDER = ["C02", "C07", "C08", "C09", "C10", "C12", "C13", "C14", "C18", "C19"]
 m = {
  "version": 1,
